@@ -47,7 +47,7 @@ def handle (ts : List String) : String :=
     orErr <| (run (do let a ← nat; let b ← nat; let ch ← list nat; pure (a, b, ch)) rest).bind
       fun (a, b, ch) => match ch with
         | [] => none
-        | _ => some (fmtList (fun v => fmtList fmtInt ((List.range 12).map v)) (Ps13.chromaVectors ch a b))
+        | _ => some (fmtList (fun v => fmtList fmtInt ((List.range 12).map v.get)) (Ps13.chromaVectors ch a b))
   | "cm" :: rest =>
     orErr <| (run (do let c ← int; let m ← int; pure (c, m)) rest).map fun (c, m) =>
       let mp := Ps13.morpheticPitch c m
